@@ -20,3 +20,6 @@ func VerifC07Members(p *Peer) (voters []uint64, nonVotings []uint64,
 	return keys(p.raft.remotes), keys(p.raft.nonVotings),
 		keys(p.raft.witnesses), p.raft.pendingConfigChange
 }
+
+// VerifC07Applied returns the applied index raft was told (raft.getApplied).
+func VerifC07Applied(p *Peer) uint64 { return p.raft.getApplied() }
